@@ -58,52 +58,95 @@ mod imp {
         }
     }
 
-    fn run_once(kind: &str, init: &Value, threads: &[Vec<String>], timeout: Duration) -> Value {
+    struct Job {
+        shared: KValue,
+        srcs: Vec<String>,
+        barrier: Arc<Barrier>,
+        clock: Arc<AtomicU64>,
+        progress: Arc<AtomicUsize>,
+        tx: mpsc::Sender<(usize, Vec<Value>)>,
+        index: usize,
+    }
+
+    /// worker threads with a persistent KotoVm each (creating a VM costs far more than the
+    /// operations under test); a pool whose workers are stuck in a deadlock is abandoned
+    pub struct Pool {
+        workers: Vec<mpsc::Sender<Job>>,
+    }
+
+    fn worker(rx: mpsc::Receiver<Job>) {
+        let mut vm = ScriptVm::new();
+        while let Ok(job) = rx.recv() {
+            vm.vm.prelude().insert("shared", job.shared.clone());
+            let chunks: Vec<_> =
+                job.srcs.iter().map(|s| vm.compile(s, CompilerSettings::default())).collect();
+            let mut results = Vec::with_capacity(chunks.len());
+            job.barrier.wait();
+            for chunk in chunks {
+                let inv = job.clock.fetch_add(1, Ordering::SeqCst);
+                let vmref = std::panic::AssertUnwindSafe(&mut vm);
+                let r = guarded(move || {
+                    let vm = vmref;
+                    match chunk {
+                        Err(m) => ("ECompile".to_string(), m),
+                        Ok(c) => match vm.0.vm.run(c) {
+                            Ok(v) => (canon(&v), String::new()),
+                            Err(e) => (error_class(&e), e.to_string()),
+                        },
+                    }
+                });
+                let resp = job.clock.fetch_add(1, Ordering::SeqCst);
+                let panicked = r.is_err();
+                results.push(match r {
+                    Ok((r, msg)) => json!({"r": r, "inv": inv, "resp": resp, "msg": msg}),
+                    Err(msg) => json!({"panic": msg, "at": last_panic_location(), "inv": inv, "resp": resp}),
+                });
+                job.progress.fetch_add(1, Ordering::SeqCst);
+                if panicked {
+                    // the VM was unwound in the middle of an instruction: start from a clean one
+                    let _ = vm.capture.take();
+                    vm = ScriptVm::new();
+                    vm.vm.prelude().insert("shared", job.shared.clone());
+                }
+            }
+            let _ = vm.capture.take();
+            let _ = job.tx.send((job.index, results));
+        }
+    }
+
+    impl Pool {
+        pub fn new() -> Self {
+            Pool { workers: Vec::new() }
+        }
+        fn ensure(&mut self, n: usize) {
+            while self.workers.len() < n {
+                let (tx, rx) = mpsc::channel::<Job>();
+                std::thread::Builder::new().stack_size(8 << 20).spawn(move || worker(rx)).expect("spawn");
+                self.workers.push(tx);
+            }
+        }
+    }
+
+    fn run_once(pool: &mut Pool, kind: &str, init: &Value, threads: &[Vec<String>], timeout: Duration) -> Value {
         let shared = make_shared(kind, init);
         let n = threads.len();
+        pool.ensure(n);
         let clock = Arc::new(AtomicU64::new(0));
         let barrier = Arc::new(Barrier::new(n));
         let progress: Vec<Arc<AtomicUsize>> = (0..n).map(|_| Arc::new(AtomicUsize::new(0))).collect();
         let (tx, rx) = mpsc::channel::<(usize, Vec<Value>)>();
         for (t, srcs) in threads.iter().enumerate() {
-            let srcs = srcs.clone();
-            let shared = shared.clone();
-            let clock = clock.clone();
-            let barrier = barrier.clone();
-            let prog = progress[t].clone();
-            let tx = tx.clone();
-            std::thread::Builder::new()
-                .stack_size(8 << 20)
-                .spawn(move || {
-                    let mut vm = ScriptVm::new();
-                    vm.vm.prelude().insert("shared", shared.clone());
-                    let chunks: Vec<_> =
-                        srcs.iter().map(|s| vm.compile(s, CompilerSettings::default())).collect();
-                    let mut results = Vec::with_capacity(chunks.len());
-                    barrier.wait();
-                    for chunk in chunks {
-                        let inv = clock.fetch_add(1, Ordering::SeqCst);
-                        let vmref = std::panic::AssertUnwindSafe(&mut vm);
-                        let r = guarded(move || {
-                            let vm = vmref;
-                            match chunk {
-                                Err(m) => ("ECompile".to_string(), m),
-                                Ok(c) => match vm.0.vm.run(c) {
-                                    Ok(v) => (canon(&v), String::new()),
-                                    Err(e) => (error_class(&e), e.to_string()),
-                                },
-                            }
-                        });
-                        let resp = clock.fetch_add(1, Ordering::SeqCst);
-                        results.push(match r {
-                            Ok((r, msg)) => json!({"r": r, "inv": inv, "resp": resp, "msg": msg}),
-                            Err(msg) => json!({"panic": msg, "at": last_panic_location(), "inv": inv, "resp": resp}),
-                        });
-                        prog.fetch_add(1, Ordering::SeqCst);
-                    }
-                    let _ = tx.send((t, results));
+            pool.workers[t]
+                .send(Job {
+                    shared: shared.clone(),
+                    srcs: srcs.clone(),
+                    barrier: barrier.clone(),
+                    clock: clock.clone(),
+                    progress: progress[t].clone(),
+                    tx: tx.clone(),
+                    index: t,
                 })
-                .expect("spawn");
+                .expect("worker gone");
         }
         drop(tx);
         let deadline = std::time::Instant::now() + timeout;
@@ -120,6 +163,10 @@ mod imp {
             }
         }
         let deadlock = got < n;
+        if deadlock {
+            // the stuck workers stay behind; later runs get fresh ones
+            pool.workers.clear();
+        }
         let prog: Vec<usize> = progress.iter().map(|p| p.load(Ordering::SeqCst)).collect();
         // reading the container of a deadlocked run would block as well
         let fin = if deadlock { "LOCKED".to_string() } else { canon(&shared) };
@@ -133,7 +180,19 @@ mod imp {
         quiet_panics();
         let cases = read_cases();
         let mut w = out();
+        let mut pool = Pool::new();
+        // a runtime that deadlocks on (say) every pop would cost one watchdog timeout per case:
+        // after a few deadlocked cases the rest of the file is skipped (reported as such)
+        let mut deadlocked_cases = 0;
+        let mut max_deadlocked = 3;
         for case in &cases {
+            if let Some(n) = case.get("abort_after_deadlocks").and_then(|v| v.as_u64()) {
+                max_deadlocked = n;
+            }
+            if deadlocked_cases >= max_deadlocked {
+                emit_line(&mut w, &json!({"runs": [], "skipped": true}));
+                continue;
+            }
             let kind = case["kind"].as_str().unwrap_or("list").to_string();
             let threads: Vec<Vec<String>> = case["threads"]
                 .as_array()
@@ -151,10 +210,11 @@ mod imp {
             let repeat = case.get("repeat").and_then(|v| v.as_u64()).unwrap_or(1);
             let mut runs = Vec::new();
             for _ in 0..repeat {
-                let r = run_once(&kind, &case["init"], &threads, timeout);
+                let r = run_once(&mut pool, &kind, &case["init"], &threads, timeout);
                 let dead = r["deadlock"].as_bool().unwrap_or(false);
                 runs.push(r);
                 if dead {
+                    deadlocked_cases += 1;
                     break; // the stuck threads stay behind; do not pile more on top
                 }
             }
